@@ -47,6 +47,10 @@ func baseConfig(strategy string, backends ...string) *config.Config {
 	return cfg
 }
 
+// kitOnServer, if set, sees the server that startHelios has built before it starts serving (to
+// watch connection states, for instance).
+var kitOnServer func(*http.Server)
+
 func startHelios(cfg *config.Config) (*helios, error) {
 	if err := cfg.Validate(); err != nil {
 		return nil, fmt.Errorf("validate: %w", err)
@@ -62,6 +66,9 @@ func startHelios(cfg *config.Config) (*helios, error) {
 	}
 	srv := createHTTPServer(cfg, h)
 	srv.ErrorLog = log.New(io.Discard, "", 0)
+	if kitOnServer != nil {
+		kitOnServer(srv)
+	}
 	l, err := net.Listen("tcp", "127.0.0.1:0")
 	if err != nil {
 		return nil, err
